@@ -115,11 +115,35 @@ def mstep (S : PSt) (i : Pid) : PSt :=
 
 def mrun (S : PSt) (sched : List Pid) : PSt := sched.foldl mstep S
 
-/-- SIGINT / SIGTERM delivered to process `i` in its command body: the handler calls `giveLocks(locks)` for all its
-locks (the command's own `giveLocks` will not run any more), then the process dies; elsewhere not modelled -/
+/-- `takeLocks` of process `i`, working on path element `k`, is about to call `mkdir` there: before its first attempt
+on that stack ("between stacks") or in the sleep before the next attempt -/
+def atRestAcq (S : PSt) (i : Pid) (k : Nat) : Bool :=
+  match (S.path i)[k]? with
+  | some d => (match (S.comp d).pc i with | .mkdir _ => true | _ => false)
+  | none => false
+
+/-- SIGINT / SIGTERM delivered to process `i`.  The handler is installed before the first lock is taken (D12h), so:
+* in its command body: the handler calls `giveLocks(locks)` for all its locks, then the process dies;
+* during `takeLocks`, while it is about to call `mkdir` on path element `k` (between stacks, or in the retry wait for a
+  contended stack): the handler gives up the `k` locks taken on the earlier elements, then the process dies;
+* inside `giveLocks` (the command's own call or the exit handler's), about to start on a lock: the handler's pass over
+  the same list releases that lock and the remaining ones, then the process dies (D12i: the lock used to be off the
+  list already);
+* elsewhere (in the middle of an attempt, or of the release of one lock) not modelled. -/
 def mintr (S : PSt) (i : Pid) : PSt :=
   match S.ctl i with
   | .body n _ => if n = 0 then setCtl S i (.fin .killed) else setCtl S i (.rel 0 n false .killed)
+  | .acq k =>
+    if atRestAcq S i k then (if k = 0 then setCtl S i (.fin .killed) else setCtl S i (.rel 0 k false .killed))
+    else S
+  | .rel j n _ o =>
+    -- inside `giveLocks`, about to start on `locks[j]` (still on the list): the handler's pass releases it and the
+    -- rest, then the process dies
+    if o == .killed then S      -- the handler is running already (a process is signalled once)
+    else
+      match (S.path i)[j]? with
+      | some d => (match (S.comp d).pc i with | .hold => setCtl S i (.rel j n false .killed) | _ => S)
+      | none => S
   | _ => S
 
 inductive MEv
